@@ -35,11 +35,13 @@ void ResidualTake::computeResidual(Vector<double>& result, const Vector<double>&
             /* Circle Section */
             #pragma omp for nowait
             for (int i_r = 0; i_r < grid_.numberSmootherCircles(); i_r++) {
+                VERIF_ITER(i_r);
                 applyCircleSection(i_r, result, rhs, x);
             }
             /* Radial Section */
             #pragma omp for nowait
             for (int i_theta = 0; i_theta < grid_.ntheta(); i_theta++) {
+                VERIF_ITER(i_theta);
                 applyRadialSection(i_theta, result, rhs, x);
             }
         }
